@@ -413,19 +413,61 @@ def unroll_literal_loops(tree):
             out.extend(nest(body))
         return out
 
-    def process(stmts):
+    def fold_named_literal(stmts, i, fn_node):
+        """`kinds = (<literal>)` immediately followed by `for .. in kinds / enumerate(kinds, ..) / zip(kinds, ..)`, the name read nowhere else:
+        the loop is given the literal itself and the assignment disappears."""
+        st = stmts[i]
+        if i == 0 or fn_node is None or not isinstance(st, ast.For):
+            return False
+        prev = stmts[i - 1]
+        if not (isinstance(prev, ast.Assign) and len(prev.targets) == 1 and isinstance(prev.targets[0], ast.Name) and lit_elems(prev.value) is not None):
+            return False
+        nm = prev.targets[0].id
+        loads = [n for n in ast.walk(fn_node) if isinstance(n, ast.Name) and n.id == nm and isinstance(n.ctx, ast.Load)]
+        stores = [n for n in ast.walk(fn_node) if isinstance(n, ast.Name) and n.id == nm and isinstance(n.ctx, (ast.Store, ast.Del))]
+        if len(loads) != 1 or len(stores) != 1:
+            return False
+        it = st.iter
+        slots = []
+        if isinstance(it, ast.Name):
+            slots.append(("iter", None))
+        elif isinstance(it, ast.Call) and isinstance(it.func, ast.Name) and it.func.id in ("enumerate", "zip"):
+            for k, a in enumerate(it.args):
+                if isinstance(a, ast.Name) and a.id == nm:
+                    slots.append(("arg", k))
+        if len(slots) != 1 or (slots[0][0] == "iter" and it.id != nm):
+            return False
+        if slots[0][0] == "iter":
+            st.iter = prev.value
+        else:
+            it.args[slots[0][1]] = prev.value
+        if try_unroll(st) is None:
+            # not unrollable after all: restore
+            if slots[0][0] == "iter":
+                st.iter = ast.copy_location(ast.Name(id=nm, ctx=ast.Load()), prev.value)
+            else:
+                it.args[slots[0][1]] = ast.copy_location(ast.Name(id=nm, ctx=ast.Load()), prev.value)
+            return False
+        del stmts[i - 1]
+        return True
+
+    def process(stmts, fn_node=None):
         i = 0
         while i < len(stmts):
             st = stmts[i]
+            inner_fn = st if isinstance(st, (ast.FunctionDef, ast.AsyncFunctionDef)) else fn_node
             for fld in ("body", "orelse", "finalbody"):
                 sub = getattr(st, fld, None)
                 if isinstance(sub, list) and sub and isinstance(sub[0], ast.stmt):
-                    process(sub)
+                    process(sub, inner_fn)
             for h in getattr(st, "handlers", []) or []:
-                process(h.body)
+                process(h.body, inner_fn)
+            if fold_named_literal(stmts, i, fn_node):
+                i -= 1
+                st = stmts[i]
             rep = try_unroll(st)
             if rep is not None and rep:
-                process(rep)            # the copies may contain loops that have become literal only now
+                process(rep, fn_node)            # the copies may contain loops that have become literal only now
                 stmts[i:i + 1] = rep
                 i += len(rep)
             else:
